@@ -235,7 +235,7 @@ LEVEL_TEXT = ('Partial. Proved, on the tables regenerated from README.md, akn.pe
               'without blank or backslash, every heading and content line of plain or escaped characters, in any context, rule hier_element of the regenerated grammar and to_dict '
               'give the hier node with the keyword\'s element, that num, that heading and one paragraph (C04_hier_element_yields_hier_node); and through the WHOLE pipeline model - '
               'pre_parse, grammar, to_dict, XML builder, post-processing, eIds - `KEYWORD num - heading` + an indented plain line converts, for every known URI and every prefix, to '
-              '<tag eId=prefix__abbr_num><num/><heading/><content><p eId=...__p_1/></content></tag> (C04_hier_element_converts; instances run on the implementation on every run); and indentation nesting becomes element nesting to ANY depth: a chain of hierarchical elements nested in one another around a plain line is read by hier_element as one nest and to_dict gives the hier nodes nested in the same way, by induction over the depth (C04_hier_chain_yields_nested_nodes; nests of up to 20 levels run through the whole implementation on every run). '
+              '<tag eId=prefix__abbr_num><num/><heading/><content><p eId=...__p_1/></content></tag> (C04_hier_element_converts; instances run on the implementation on every run); and indentation nesting becomes element nesting to ANY depth: a chain of hierarchical elements nested in one another around a plain line is read by hier_element as one nest and to_dict gives the hier nodes nested in the same way, by induction over the depth (C04_hier_chain_yields_nested_nodes), and through the WHOLE pipeline model such a nest - any depth, any indentation widths, every known URI and prefix - converts to the elements nested in the same way with every eId the parent\'s eId + __abbr_num (C04_hier_chain_converts; nests of up to 20 levels run through the whole implementation on every run). '
               'For all other shapes the whole-document statement (text -> prescribed tree) is decided by the '
               'independent specification generator absdoc.py on sampled abstract documents x seven roots, plus every keyword exhaustively, on the '
               'implementation; the model is tied to the code on the same documents by the e2e and dict stages.')
